@@ -99,7 +99,7 @@ PROPS = {
         "shrink_budget": 3,
     },
     "C07": {
-        "lean_modules": ["Props.Facts07", "Props.Gen07", "Props.GenT07"],
+        "lean_modules": ["Props.Facts07", "Props.Gen07", "Props.GenT07", "Props.Gen07s", "Props.GenT07s"],
         # the model of Update *is* the keymap the property speaks of: a state that differs from
         # it after a key sequence is a key that did not do what the keymap says
         "correspondence_is_failure": {"ui": True},
@@ -370,7 +370,7 @@ PROPS = {
         "assumptions": ["width >= 1 for the width clause"],
     },
     "C16": {
-        "lean_modules": ["Props.C16b", "Props.Gen16", "Props.GenT16", "Props.Gen16v", "Props.GenT16v"],
+        "lean_modules": ["Props.C16b", "Props.Gen16", "Props.GenT16", "Props.Gen16v", "Props.GenT16v", "Props.Gen07s", "Props.GenT07s"],
         "groups": [{"name": "C16", "quick": 6000, "thorough": 200000}, {"name": "C07", "quick": 160, "thorough": 4000, "workers": 16},
                    {"name": "C16x", "quick": 0, "thorough": 7, "workers": 1},
                    # concurrent keys, loads and resizes: every frame as tall as the state says when it is drawn
